@@ -467,22 +467,66 @@ def describe_truth(tkind, val):
     return "owner class %s, now len %d" % ("defines __len__" if tkind == "len" else "is a list subclass", int(val))
 
 
-def class_source(decls, name, split, src, tkind=None):
+# ---- class hierarchies with REDEFINED tunables ---------------------------------
+#   hier = {"levels": [[member..]..]   a chain of classes, base-most first, the last one is the class itself
+#           "mixin":  [member..]|None  a second base of the most derived class: class C(<chain base>, Mixin)}
+#   member = a tunable declaration (dict with "default") or {"attr": name, "plain": pv} (name = <a plain value>)
+#   cls.__mro__ = the class, its chain of bases (most derived first), then the mixin
+def is_plain(m):
+    return "plain" in m
+
+
+def hier_mro(h):
+    """the bodies in cls.__mro__ order (as the model takes them)."""
+    return list(reversed(h["levels"])) + ([h["mixin"]] if h.get("mixin") is not None else [])
+
+
+def hier_tunables(h):
+    """every tunable declaration written anywhere in the hierarchy (the shadowed ones included)."""
+    return [m for body in hier_mro(h) for m in body if not is_plain(m)]
+
+
+def effective_decls(h):
+    """ORACLE side, from Python's attribute semantics (not from the model): the attribute A of an
+    instance is what the most derived class that assigns A says; a class of the chain overrides its
+    bases, every class of the chain overrides the mixin (the last base).  Returns the tunables."""
+    ns = {}
+    for body in ([h["mixin"]] if h.get("mixin") is not None else []) + list(h["levels"]):
+        for m in body:
+            ns[m["attr"]] = m                       # a later (more derived) assignment replaces it
+    return sorted((m for m in ns.values() if not is_plain(m)), key=lambda d: d["attr"])
+
+
+def shadowed_members(h):
+    """the members that are NOT what the class resolves their name to."""
+    eff = {}
+    for body in ([h["mixin"]] if h.get("mixin") is not None else []) + list(h["levels"]):
+        for m in body:
+            eff[m["attr"]] = m
+    return [m for body in hier_mro(h) for m in body if eff[m["attr"]] is not m]
+
+
+def class_source(decls, name, split, src, tkind=None, hier=None):
     """(source text, {default variable: object}) of the module defining class `name`."""
     env = {}
     lines = []
+    nvar = [0]
 
-    def body(cname, base, ds, k0):
-        root = base is None
+    def body(cname, bases, ds, root):
         if root and tkind == "list":
-            base = "list"
-        lines.append("class %s%s:" % (cname, "(%s)" % base if base else ""))
+            bases = ["list"] + bases
+        lines.append("class %s%s:" % (cname, "(%s)" % ", ".join(bases) if bases else ""))
         if root and tkind in TRUTH_SRC:
             lines.extend(TRUTH_SRC[tkind])
         elif not ds:
             lines.append("    pass")
-        for k, d in enumerate(ds):
-            var = "_d%d" % (k0 + k)
+        for d in ds:
+            var = "_d%d" % nvar[0]
+            nvar[0] += 1
+            if is_plain(d):
+                env[var] = to_py(d["plain"])
+                lines.append("    %s = %s" % (d["attr"], var))
+                continue
             env[var] = to_py(d["default"])
             args = var
             if d.get("wd") is not None:
@@ -498,11 +542,21 @@ def class_source(decls, name, split, src, tkind=None):
                 lines.append("    %s: %s = tunable(%s)" % (d["attr"], ann_src(h, form, d.get("flavor", 0), d.get("q", 0)), args))
         lines.append("")
 
-    if split:
-        body(name + "Base", None, decls[:split], 0)
-        body(name, name + "Base", decls[split:], split)
+    if hier is not None:
+        levels = hier["levels"]
+        if hier.get("mixin") is not None:
+            body(name + "Mixin", [], hier["mixin"], False)
+        for k, ds in enumerate(levels):
+            last = k == len(levels) - 1
+            bases = [] if k == 0 else [name + "L%d" % (k - 1)]
+            if last and hier.get("mixin") is not None:
+                bases = bases + [name + "Mixin"]
+            body(name if last else name + "L%d" % k, bases, ds, k == 0)
+    elif split:
+        body(name + "Base", [], decls[:split], True)
+        body(name, [name + "Base"], decls[split:], False)
     else:
-        body(name, None, decls, 0)
+        body(name, [], decls, True)
     head = ("from __future__ import annotations\n" if src == 2 else "") + SRC_HEADER
     return head + "\n" + "\n".join(lines), env
 
@@ -510,11 +564,11 @@ def class_source(decls, name, split, src, tkind=None):
 _MODN = [0]
 
 
-def make_class_src(mt, decls, name, split, src, tkind=None):
+def make_class_src(mt, decls, name, split, src, tkind=None, hier=None):
     """the class statement as it stands in a user's module (typing.get_type_hints resolves string
     annotations in sys.modules[cls.__module__].__dict__: the module is registered while it runs)."""
     import types
-    text, env = class_source(decls, name, split, src, tkind)
+    text, env = class_source(decls, name, split, src, tkind, hier)
     _MODN[0] += 1
     modname = "c09gen_%d" % _MODN[0]
     mod = types.ModuleType(modname)
@@ -528,18 +582,22 @@ def make_class_src(mt, decls, name, split, src, tkind=None):
     return mod.__dict__[name]
 
 
-def make_class(mt, decls, name="Gen", split=0, src=0, tkind=None):
+def make_class(mt, decls, name="Gen", split=0, src=0, tkind=None, hier=None):
     """a class with the tunables `decls` (dict: attr default hint form flavor q subtable wd);
     the first `split` of them live on a base class (dir(cls) must find them); tkind: how bool()
-    of an instance is computed (see TRUTH_SRC)."""
+    of an instance is computed (see TRUTH_SRC); hier: the class is a hierarchy with redefinitions
+    (then `decls` is what it resolves to and is not used to build it)."""
     import typing
-    src = eff_src(decls, src)
+    src = eff_src(hier_tunables(hier) if hier is not None else decls, src)
     if src:
-        return make_class_src(mt, decls, name, split, src, tkind)
+        return make_class_src(mt, decls, name, split, src, tkind, hier)
 
     def ns_of(ds):
         ns, ann = {}, {}
         for d in ds:
+            if is_plain(d):
+                ns[d["attr"]] = to_py(d["plain"])
+                continue
             kw = {}
             if d.get("wd") is not None:
                 kw["writeDefault"] = d["wd"]
@@ -564,6 +622,18 @@ def make_class(mt, decls, name="Gen", split=0, src=0, tkind=None):
         return ns
 
     bases = (list,) if tkind == "list" else (object,)
+    if hier is not None:
+        levels = hier["levels"]
+        mixin = type(name + "Mixin", (object,), ns_of(hier["mixin"])) if hier.get("mixin") is not None else None
+        cls = None
+        for k, ds in enumerate(levels):
+            last = k == len(levels) - 1
+            b = bases if cls is None else (cls,)
+            if last and mixin is not None:
+                b = tuple(x for x in b if x is not object) + (mixin,)
+            ns = dict(truth_ns(tkind), **ns_of(ds)) if k == 0 else ns_of(ds)
+            cls = type(name if last else name + "L%d" % k, b, ns)
+        return cls
     if split:
         bases = (type(name + "Base", bases, dict(truth_ns(tkind), **ns_of(decls[:split]))),)
         return type(name, bases, ns_of(decls[split:]))
@@ -799,6 +869,70 @@ def gen_decl(r, attr, kind=None):
             "wd": r.choice([True, True, False, None])}
 
 
+PLAIN_POOL = [["int", 3], ["float", 96], ["str", "plain"], ["bool", True], ["int", 0]]
+
+
+def gen_hier(r, ds, tag):
+    """a class hierarchy that RESOLVES to the tunables `ds` and in which names are redefined:
+    a chain of 1-3 classes (+ a mixin as last base of the most derived class); every tunable of
+    `ds` is defined in one class of the MRO; below it (further down the MRO) the same name may be
+    declared again -- another default, writeDefault flag, sometimes another subtable / type -- and
+    is shadowed; some names are a tunable in a base and a plain attribute in a subclass (not a
+    tunable of the class), or the other way round."""
+    depth = r.choice([1, 2, 2, 2, 3])
+    mixin = depth == 1 or r.random() < 0.3
+    nmro = depth + (1 if mixin else 0)
+    mro = [[] for _ in range(nmro)]                 # position 0 = the class itself
+    for d in ds:
+        p = r.randrange(nmro)
+        if r.random() < 0.5:
+            p = min(p, r.randrange(nmro))           # redefinitions need room below
+        mro[p].append(d)
+        for q in range(p + 1, nmro):
+            if r.random() >= (0.6 if q == p + 1 else 0.35):
+                continue
+            if r.random() < 0.12:
+                mro[q].append({"attr": d["attr"], "plain": r.choice(PLAIN_POOL)})
+                continue
+            kind = tuple(d["kind"]) if r.random() < 0.85 else r.choice(KINDS)
+            v = gen_decl(r, d["attr"], kind)
+            if r.random() < 0.75:
+                v["subtable"] = d["subtable"]
+            if canon(v["default"]) == canon(d["default"]) and r.random() < 0.8:
+                v["wd"] = False if d["wd"] is not False else True
+            if r.random() < 0.35:                   # the flag is what differs
+                v["wd"] = False if d["wd"] is not False else r.choice([True, None])
+            mro[q].append(v)
+    # names the class does NOT resolve to a tunable: a base declares a tunable, a subclass
+    # assigns a plain value under the same name
+    for g in range(r.choice([0, 0, 1, 1, 2])):
+        if nmro < 2:
+            break
+        attr = "ghost%d_%s" % (g, tag)
+        p = r.randrange(nmro - 1)
+        mro[p].append({"attr": attr, "plain": r.choice(PLAIN_POOL)})
+        v = gen_decl(r, attr)
+        mro[r.randrange(p + 1, nmro)].append(v)
+    # an annotation is inherited by an un-annotated redefinition (typing.get_type_hints merges the
+    # MRO of the defining class); with the same element type and shape it resolves to the same
+    # topic type as the default alone, with another one it would not: there the base definition
+    # carries its hint as a subscript (outside the modelled domain otherwise, see notes_c09.md)
+    for q in range(nmro):
+        for x in mro[q]:
+            if is_plain(x) or x.get("hint") is None or x.get("form", 0) == 0:
+                continue
+            for p in range(q):
+                if mixin and q == nmro - 1 and p != 0:
+                    continue                        # only the most derived class has the mixin as a base
+                for y in mro[p]:
+                    if not is_plain(y) and y["attr"] == x["attr"] and y.get("hint") is None and y["kind"] != x["kind"]:
+                        x["form"] = 0
+    for body in mro:
+        r.shuffle(body)
+    h = {"levels": list(reversed(mro[:depth])), "mixin": mro[depth] if mixin else None}
+    return h
+
+
 ATTR_POOL = ["x", "y", "gain", "kP", "speed", "limits", "name", "x_", "xy", "flag"]
 NAME_POOL = ["a", "ab", "a_b", "b", "Mode A", "robot", "components", "x"]
 
@@ -806,7 +940,7 @@ NAME_POOL = ["a", "ab", "a_b", "b", "Mode A", "robot", "components", "x"]
 def gen_case(r, tag):
     """one history; `tag` makes every topic name of the case unique in the NT instance."""
     ncls = r.choice([1, 1, 2])
-    classes, split, srcs, tkinds = [], [], [], []
+    classes, split, srcs, tkinds, hiers = [], [], [], [], []
     for c in range(ncls):
         srcs.append(r.choice([0, 1, 2, 2]))
         tkinds.append(r.choice([None, None, None, None, "len", "len", "bool", "list"]))
@@ -817,7 +951,12 @@ def gen_case(r, tag):
             ds.append(gen_decl(r, "_hidden_%s" % tag))
         ds.sort(key=lambda d: d["attr"])            # dir(cls) order
         classes.append(ds)
-        split.append(r.randrange(len(ds)) if r.random() < 0.3 else 0)
+        if r.random() < 0.4:
+            hiers.append(gen_hier(r, ds, tag))
+            split.append(0)
+        else:
+            hiers.append(None)
+            split.append(r.randrange(len(ds)) if r.random() < 0.3 else 0)
     ninst = r.choice([1, 2, 2, 3])
     insts = [r.randrange(ncls) for _ in range(ninst)]
     if ninst >= 2 and r.random() < 0.6:
@@ -870,6 +1009,23 @@ def gen_case(r, tag):
             out.append((doc_key(owner[0], owner[1], d["subtable"], d["attr"]), ts, tuple(d["kind"])))
         return out
 
+    def ghost_keys_of(i, owner):
+        """keys at which a definition the class does NOT resolve its name to would be published
+        (shadowed under another subtable / shadowed by a plain attribute): nothing may appear there"""
+        h = hiers[insts[i]]
+        if h is None:
+            return []
+        real = set(k for k, _, _ in keys_of(i, owner))
+        out = []
+        for m in shadowed_members(h):
+            if is_plain(m) or m["attr"].startswith("_"):
+                continue
+            k = doc_key(owner[0], owner[1], m["subtable"], m["attr"])
+            if k not in real and k not in out:
+                out.append(k)
+        return out
+
+    ghost_keys = []
     # before any setup: reads of unbound instances, pre-published topics
     for i in range(ninst):
         if r.random() < 0.2:
@@ -892,8 +1048,12 @@ def gen_case(r, tag):
             ops.append(["setup", i, owners[i][0], owners[i][1]])
             bound[i] = owners[i]
             known_keys += keys_of(i, owners[i])
+            ghost_keys += ghost_keys_of(i, owners[i])
             continue
         if not bound:
+            continue
+        if ghost_keys and r.random() < 0.05:
+            ops.append(["ntr", r.choice(ghost_keys)])
             continue
         k = r.random()
         i = r.choice(list(bound) if r.random() < 0.95 else list(range(ninst)))
@@ -915,6 +1075,7 @@ def gen_case(r, tag):
             ops.append(["setup", i, owners[i][0], owners[i][1]])
             bound[i] = owners[i]
             known_keys += keys_of(i, owners[i])
+            ghost_keys += ghost_keys_of(i, owners[i])
     # closing reads: every attribute of every instance, every known key
     for i in range(ninst):
         if i in can_be_falsy and r.random() < 0.5:
@@ -925,7 +1086,13 @@ def gen_case(r, tag):
     for key, ts, kind in known_keys[:8]:
         if r.random() < 0.5:
             ops.append(["ntr", key])
-    return {"tag": tag, "classes": classes, "split": split, "src": srcs, "tkind": tkinds, "insts": insts, "ops": ops}
+    for key in ghost_keys[:6]:
+        if r.random() < 0.5:
+            ops.append(["ntr", key])
+    case = {"tag": tag, "classes": classes, "split": split, "src": srcs, "tkind": tkinds, "insts": insts, "ops": ops}
+    if any(h is not None for h in hiers):
+        case["hier"] = hiers
+    return case
 
 
 def case_src(case, k):
@@ -936,6 +1103,32 @@ def case_src(case, k):
 def case_tkind(case, k):
     """how bool() of an instance of class k is computed (absent in old corpus files: ordinary)."""
     return (case.get("tkind") or [None] * len(case["classes"]))[k]
+
+
+def case_hier(case, k):
+    """the class hierarchy of class k when it is written with redefinitions (else None: the class
+    is `classes[k]`, the first `split[k]` of them on a base class)."""
+    return (case.get("hier") or [None] * len(case["classes"]))[k]
+
+
+def case_all_decls(case, k):
+    """every tunable declaration WRITTEN for class k."""
+    h = case_hier(case, k)
+    return hier_tunables(h) if h is not None else case["classes"][k]
+
+
+def case_eff_src(case, k):
+    return eff_src(case_all_decls(case, k), case_src(case, k))
+
+
+def refresh_case(case):
+    """classes[k] of a class written as a hierarchy = the tunables it resolves to (oracle side)."""
+    for k in range(len(case["classes"])):
+        h = case_hier(case, k)
+        if h is not None:
+            case["classes"][k] = effective_decls(h)
+            case["split"][k] = 0
+    return case
 
 
 def inst_tkind(case, i):
@@ -959,7 +1152,7 @@ def exec_case(mt, case):
     writer = NtWriter()
     keep.append(writer)
     try:
-        clss = [make_class(mt, ds, "Cls%d" % k, case["split"][k], case_src(case, k), case_tkind(case, k))
+        clss = [make_class(mt, ds, "Cls%d" % k, case["split"][k], case_src(case, k), case_tkind(case, k), case_hier(case, k))
                 for k, ds in enumerate(case["classes"])]
     except Exception as e:
         return [["classraise", type(e).__name__, str(e)[:120]]] * len(case["ops"])
@@ -1068,8 +1261,17 @@ def decl_to_coq(d, src=0):
 
 
 def case_to_coq(case, obs):
-    lets = "".join("let c%d := %s in " % (k, coq_list([decl_to_coq(d, eff_src(ds, case_src(case, k))) for d in ds]))
-                   for k, ds in enumerate(case["classes"]))
+    def class_to_coq(k, ds):
+        es = case_eff_src(case, k)
+        h = case_hier(case, k)
+        if h is None:
+            return coq_list([decl_to_coq(d, es) for d in ds])
+        # the hierarchy as written: the MODEL resolves dir(cls) / getattr(cls, n) (Model.class_members)
+        return "(class_members %s)" % coq_list([
+            coq_list(["(MPlain %s)" % cs(m["attr"]) if is_plain(m) else "(MTun %s)" % decl_to_coq(m, es) for m in body])
+            for body in hier_mro(h)])
+
+    lets = "".join("let c%d := %s in " % (k, class_to_coq(k, ds)) for k, ds in enumerate(case["classes"]))
     ops = []
     pre = []
     # creation of the owner objects: an instance of a class with __len__ / __bool__ starts falsy
@@ -1202,13 +1404,39 @@ def describe_decl(d, src):
 def describe_classes(case):
     out = []
     for k, ds in enumerate(case["classes"]):
-        src = eff_src(ds, case_src(case, k))
+        src = case_eff_src(case, k)
         how = {0: "type()", 1: "module", 2: "module with `from __future__ import annotations`"}[src]
         tk = case_tkind(case, k)
         if tk is not None:
             how += {"len": ", defines __len__", "bool": ", defines __bool__", "list": ", subclass of list"}[tk]
-        out.append("[%s] %s" % (how, "; ".join(describe_decl(d, src) for d in ds)))
+        h = case_hier(case, k)
+        if h is not None:
+            out.append("[%s] %s" % (how, describe_hier(h, "Cls%d" % k, src)))
+        else:
+            out.append("[%s] %s" % (how, "; ".join(describe_decl(d, src) for d in ds)))
     return " | ".join(out)
+
+
+def describe_member(m, src):
+    if is_plain(m):
+        return "%s = %s (not a tunable)" % (m["attr"], json.dumps(m["plain"]))
+    extra = "".join(", %s=%s" % (k2, json.dumps(m[k1])) for k1, k2 in (("wd", "writeDefault"), ("subtable", "subtable"))
+                    if m.get(k1) is not None)
+    return describe_decl(m, src)[:-1] + extra + ")"
+
+
+def describe_hier(h, name, src):
+    """one line per class of the hierarchy, base-most first."""
+    parts = []
+    if h.get("mixin") is not None:
+        parts.append("class %sMixin: %s" % (name, "; ".join(describe_member(m, src) for m in h["mixin"]) or "pass"))
+    n = len(h["levels"])
+    for k, body in enumerate(h["levels"]):
+        last = k == n - 1
+        bases = ([] if k == 0 else ["%sL%d" % (name, k - 1)]) + ([name + "Mixin"] if last and h.get("mixin") is not None else [])
+        parts.append("class %s%s: %s" % (name if last else "%sL%d" % (name, k), "(%s)" % ", ".join(bases) if bases else "",
+                                         "; ".join(describe_member(m, src) for m in body) or "pass"))
+    return " / ".join(parts)
 
 
 def strip_case(case):
@@ -1216,7 +1444,7 @@ def strip_case(case):
     return json.loads(json.dumps(case))
 
 
-def shrink_case(mt, case, fresh_tag, budget=150):
+def shrink_case(mt, case, fresh_tag, budget=220):
     """greedy: drop ops, then declarations, while the oracle still reports the same fingerprint."""
     def retag(c, tag):
         return json.loads(json.dumps(c).replace(c.get("tag", "\0"), tag)) if c.get("tag") else c
@@ -1250,15 +1478,71 @@ def shrink_case(mt, case, fresh_tag, budget=150):
                 attr = ds[k]["attr"]
                 if any(op[0] in ("pyw", "pyr") and op[2] == attr and best["insts"][op[1]] == ci for op in best["ops"]):
                     continue
-                cand = dict(best)
-                cand["classes"] = [list(x) for x in best["classes"]]
+                cand = json.loads(json.dumps(best))
                 del cand["classes"][ci][k]
                 cand["split"] = [0] * len(cand["classes"])
+                hc = case_hier(cand, ci)
+                if hc is not None:                   # every definition of the name goes
+                    hc["levels"] = [[m for m in b if m["attr"] != attr] for b in hc["levels"]]
+                    if hc.get("mixin") is not None:
+                        hc["mixin"] = [m for m in hc["mixin"] if m["attr"] != attr]
+                    refresh_case(cand)
                 budget -= 1
                 v = failing(cand)
                 if v is not None and v["fingerprint"] == fp:
                     best, changed = cand, True
                     ds = best["classes"][ci]
+    # the hierarchy: is it needed at all; which shadowed definitions are needed?
+    for ci in range(len(best["classes"])):
+        if case_hier(best, ci) is None:
+            continue
+        if budget > 0:
+            cand = json.loads(json.dumps(best))
+            cand["hier"][ci] = None                  # the class written flat: what it resolves to
+            budget -= 1
+            v = failing(cand)
+            if v is not None and v["fingerprint"] == fp:
+                best = cand
+                continue
+        for m in shadowed_members(case_hier(best, ci)):
+            if budget <= 0:
+                break
+            cand = json.loads(json.dumps(best))
+            hc = cand["hier"][ci]
+            for body in hc["levels"] + ([hc["mixin"]] if hc.get("mixin") is not None else []):
+                if m in body:
+                    body.remove(m)
+                    break
+            refresh_case(cand)
+            budget -= 1
+            v = failing(cand)
+            if v is not None and v["fingerprint"] == fp:
+                best = cand
+        # names no operation touches: drop the members that are not tunables of the class at all
+        hb = case_hier(best, ci)
+        live = set(d["attr"] for d in best["classes"][ci])
+        if budget > 0 and any(m["attr"] not in live for b in hier_mro(hb) for m in b):
+            cand = json.loads(json.dumps(best))
+            hc = cand["hier"][ci]
+            hc["levels"] = [[m for m in b if m["attr"] in live] for b in hc["levels"]]
+            if hc.get("mixin") is not None:
+                hc["mixin"] = [m for m in hc["mixin"] if m["attr"] in live]
+            budget -= 1
+            v = failing(cand)
+            if v is not None and v["fingerprint"] == fp:
+                best = cand
+        # empty classes of the chain / an empty mixin
+        hb = case_hier(best, ci)
+        if budget > 0 and (any(not b for b in hb["levels"][:-1]) or hb.get("mixin") == []):
+            cand = json.loads(json.dumps(best))
+            hc = cand["hier"][ci]
+            hc["levels"] = [b for b in hc["levels"][:-1] if b] + [hc["levels"][-1]]
+            if hc.get("mixin") == []:
+                hc["mixin"] = None
+            budget -= 1
+            v = failing(cand)
+            if v is not None and v["fingerprint"] == fp:
+                best = cand
     # the owner's truthiness: is a class with __len__ / __bool__ needed for the failure?
     for ci in range(len(best["classes"])):
         if budget <= 0 or case_tkind(best, ci) is None:
@@ -1284,6 +1568,25 @@ def shrink_case(mt, case, fresh_tag, budget=150):
             if v is not None and v["fingerprint"] == fp:
                 best = cand
                 break
+        hb = case_hier(best, ci)
+        if hb is not None:
+            where = [(bi, mi) for bi, b in enumerate(hb["levels"] + ([hb["mixin"]] if hb.get("mixin") is not None else []))
+                     for mi, m in enumerate(b) if not is_plain(m)]
+            for bi, mi in where:
+                for field in ("q", "form", "flavor"):
+                    hb = case_hier(best, ci)
+                    m = (hb["levels"] + ([hb["mixin"]] if hb.get("mixin") is not None else []))[bi][mi]
+                    if budget <= 0 or not m.get(field):
+                        continue
+                    cand = json.loads(json.dumps(best))
+                    hc = cand["hier"][ci]
+                    (hc["levels"] + ([hc["mixin"]] if hc.get("mixin") is not None else []))[bi][mi][field] = 0
+                    refresh_case(cand)
+                    budget -= 1
+                    v = failing(cand)
+                    if v is not None and v["fingerprint"] == fp:
+                        best = cand
+            continue
         for k in range(len(best["classes"][ci])):
             for field in ("q", "form", "flavor"):
                 if budget <= 0 or not best["classes"][ci][k].get(field):
@@ -1640,7 +1943,7 @@ def load_corpus(ctx):
                 except ValueError:
                     continue
                 if "case" in obj:
-                    out.append(obj["case"])
+                    out.append(refresh_case(obj["case"]))
     return out
 
 
@@ -1655,6 +1958,8 @@ def violation_of_case(mt, case, shrink=True):
             c, v = c2, v2
     v["case"] = strip_case(c)
     v["observations"] = exec_case(mt, retag(c, fresh_tag()))
+    if any(case_hier(c, k) is not None for k in range(len(c["classes"]))):
+        v["what"] += "   [classes: %s]" % describe_classes(c)
     return v
 
 
@@ -1787,8 +2092,28 @@ def run(ctx):
                 ctx.count("owner=%s" % (op[2] if op[2] in ("components", "autonomous") else
                                         "robot" if op[3] == "robot" else "prefix-None-other" if op[2] is None else "other-prefix"))
         for k, ds in enumerate(c["classes"]):
-            es = eff_src(ds, case_src(c, k))
+            es = case_eff_src(c, k)
             ctx.count("class-written=%s" % {0: "type()", 1: "module", 2: "module+future-annotations"}[es])
+            hk = case_hier(c, k)
+            if hk is None:
+                ctx.count("class-shape=%s" % ("flat" if not c["split"][k] else "base+subclass, no redefinition"))
+            else:
+                sh = shadowed_members(hk)
+                ctx.count("class-shape=hierarchy depth %d%s" % (len(hk["levels"]), "+mixin" if hk.get("mixin") is not None else ""))
+                ctx.count("hierarchy:shadowed-definitions=%s" % min(len(sh), 4))
+                eff = {d["attr"]: d for d in ds}
+                for m in sh:
+                    if is_plain(m):
+                        ctx.count("redefinition=plain attribute under a tunable")
+                    elif m["attr"] not in eff:
+                        ctx.count("redefinition=tunable shadowed by a plain attribute")
+                    else:
+                        e = eff[m["attr"]]
+                        ctx.count("redefinition=tunable over tunable/%s%s%s%s" % (
+                            "same type" if m["kind"] == e["kind"] else "other type",
+                            "" if canon(m["default"]) == canon(e["default"]) else "/other default",
+                            "" if (m["wd"] is not False) == (e["wd"] is not False) else "/other writeDefault",
+                            "" if (m["subtable"] or None) == (e["subtable"] or None) else "/other subtable"))
             for d in ds:
                 if d.get("hint") is not None:
                     sp = spelling(d, es)
@@ -1900,13 +2225,18 @@ def replay(ctx, obj):
     mt = impl()
     kind = obj.get("kind")
     if kind == "input" and "case" in obj:
-        c = retag(obj["case"], fresh_tag())
+        c = refresh_case(retag(obj["case"], fresh_tag()))
         for k, ds in enumerate(c["classes"]):
-            es = eff_src(ds, case_src(c, k))
+            es = case_eff_src(c, k)
             tk = case_tkind(c, k)
             if es:
-                text, env = class_source(ds, "Cls%d" % k, c["split"][k], es, tk)
+                text, env = class_source(ds, "Cls%d" % k, c["split"][k], es, tk, case_hier(c, k))
                 print(text + "".join("# %s = %r\n" % kv for kv in sorted(env.items())))
+            elif case_hier(c, k) is not None:
+                print("Cls%d = type(...) hierarchy%s: %s" % (k, "" if tk is None else " [%s; instances are created falsy]" % (
+                    {"len": "defines __len__", "bool": "defines __bool__", "list": "subclass of list"}[tk]),
+                    describe_hier(case_hier(c, k), "Cls%d" % k, 0)))
+                print("  resolves to: %s" % "; ".join(describe_member(d, 0) for d in ds))
             else:
                 print("Cls%d = type(...)%s: %s" % (k, "" if tk is None else " [%s; instances are created falsy]" % (
                     {"len": "defines __len__", "bool": "defines __bool__", "list": "subclass of list"}[tk]),
